@@ -538,6 +538,26 @@ def run_geom(ctx, replay):
                           signature=GEOM_SIG if dup_last else dict(GEOM_SIG, defect="invalid_rung_system"))
 
 
+def clobber_caller_list(arg):
+    """The caller keeps its own rung-system list after handing it to a manager / scheduler and may re-use it:
+    overwrite it IN PLACE (sizes, levels, number of rungs, number of brackets). Whoever still reads the caller's
+    object afterwards no longer sees the configured system; checker and model use a private copy."""
+    def clobber_system(rs):
+        for j in range(len(rs)):
+            sz, lv = rs[j]
+            rs[j] = (int(sz) + 2 + j, int(lv) + 100 + j)
+        if len(rs) > 1:
+            rs.pop()
+        else:
+            rs.append((1, 10 ** 6))
+    if arg and isinstance(arg[0], list):
+        for rs in arg:
+            clobber_system(rs)
+        arg.append([(3, 7)])
+    else:
+        clobber_system(arg)
+
+
 # ------------------------------------------------------------------ manager sequences
 def gen_mgr_spec(rng):
     for _ in range(50):
@@ -573,11 +593,16 @@ def run_mgr(ctx, replay):
         if dehb:
             from syne_tune.optimizer.schedulers.synchronous.dehb_bracket_manager import (
                 DifferentialEvolutionHyperbandBracketManager)
-            mgr = DifferentialEvolutionHyperbandBracketManager(rss[0], sp["mode"], dehb["num_brackets"])
-            rss = [[(int(a), int(b)) for a, b in rs] for rs in mgr.bracket_rungs]
+            arg = list(rss[0])                                  # the caller's own list object
+            mgr = DifferentialEvolutionHyperbandBracketManager(arg, sp["mode"], dehb["num_brackets"])
+            clobber_caller_list(arg)
+            nbo = dehb["num_brackets"] or len(rss[0])
+            rss = [list(rss[0][off:]) for off in range(nbo)]    # reference configuration: suffixes of the first bracket
             chk = LogChecker(rss, sp["mode"], dehb=True)
         else:
-            mgr = SynchronousHyperbandBracketManager(rss, sp["mode"])
+            arg = [list(rs) for rs in rss]                      # the caller's own nested list
+            mgr = SynchronousHyperbandBracketManager(arg, sp["mode"])
+            clobber_caller_list(arg)
             chk = LogChecker(rss, sp["mode"])
         outstanding, done_jobs, evs, log = [], [], [], []
         reported = set()
@@ -821,9 +846,11 @@ def build_scheduler(sp):
         if g["brackets"] is not None:
             extra["brackets"] = g["brackets"]
         return SynchronousGeometricHyperbandScheduler(cs, **kw, **extra)
-    rss = [[tuple(x) for x in rs] for rs in sp["bracket_rungs"]]
+    rss = [[tuple(x) for x in rs] for rs in sp["bracket_rungs"]]      # the caller's own nested list
     cs = {"x": hp, "epochs": rss[0][-1][1]}
-    return SynchronousHyperbandScheduler(cs, bracket_rungs=rss, **kw)
+    sch = SynchronousHyperbandScheduler(cs, bracket_rungs=rss, **kw)
+    clobber_caller_list(rss)
+    return sch
 
 
 def run_sched(ctx, replay):
@@ -849,7 +876,10 @@ def run_sched(ctx, replay):
                               signature=GEOM_SIG)
             continue
         ctx.h("sched_constructor", "ok")
-        rss = [[(int(a), int(b)) for a, b in rs] for rs in sch.bracket_manager.bracket_rungs]
+        if "geometric" in sp:
+            rss = [[(int(a), int(b)) for a, b in rs] for rs in sch.bracket_manager.bracket_rungs]
+        else:
+            rss = [[(int(a), int(b)) for a, b in rs] for rs in sp["bracket_rungs"]]    # private reference configuration
         rec = RecordingManager(sch.bracket_manager)
         sch.bracket_manager = rec
         searcher_calls = []
@@ -1099,9 +1129,10 @@ def run_dehb_sched(ctx, replay):
             "x": finrange(0.0, 2.0, max(2, fs // 3), cast_int=True), "y": randint(0, 2)}
         try:
             if sp.get("custom_first"):
-                first = [tuple(x) for x in sp["custom_first"]]
+                first = [tuple(x) for x in sp["custom_first"]]                  # the caller's own list
                 sch = DifferentialEvolutionHyperbandScheduler(dict(space, epochs=first[-1][1]), rungs_first_bracket=first,
                                                               num_brackets_per_iteration=sp["brackets"], **kw)
+                clobber_caller_list(first)
             else:
                 if sp["brackets"] is not None:
                     kw["brackets"] = sp["brackets"]
@@ -1111,7 +1142,11 @@ def run_dehb_sched(ctx, replay):
         except AssertionError:
             ctx.h("dehb_sched_constructor", "rejected")
             continue
-        rss = [[(int(a), int(b)) for a, b in rs] for rs in sch.bracket_manager.bracket_rungs]
+        if sp.get("custom_first"):
+            ref = [(int(a), int(b)) for a, b in sp["custom_first"]]            # private reference configuration
+            rss = [ref[off:] for off in range(sp["brackets"] or len(ref))]
+        else:
+            rss = [[(int(a), int(b)) for a, b in rs] for rs in sch.bracket_manager.bracket_rungs]
         rec = RecordingManager(sch.bracket_manager)
         sch.bracket_manager = rec
         chk = LogChecker(rss, sp["mode"], dehb=True)
